@@ -1,5 +1,5 @@
 PROP = {
-    "groups": ["progress", "progress-session", "progress-session-e2e"],
+    "groups": ["progress", "progress-session", "progress-session-e2e", "e2e-tmux-pane"],
     "rule": "real textProgressBar (export_verif_progress.go, clock pinned) vs extracted model, under the library's real RuneWidth/StringWidth "
             "values passed per case: getEllipsisString (corpus x maxima, random names), getProgressBar (lengths around the minimum, steps "
             "inside/at ties/beyond the size/negative, sizes to 2^62), getProgressText at every width 1..500 (+ -7, 0, 600, 1000, 5000) x names "
@@ -17,7 +17,7 @@ PROP = {
             "reaches the live bar, a new bar / the bar after the prompt is laid out for the current width. Group progress-session-e2e: the real "
             "client (NewTrzszFilter over pipes) through sessions of two or three consecutive real tsz/trz transfers with resizes while idle, while a "
             "transfer runs (link held), before and during an open stop prompt; every progress line that reaches the terminal is measured against "
-            "the most recent width and the widths of the lines with a bar are compared with the model's layout width.",
+            "the most recent width and the widths of the lines with a bar are compared with the model's layout width. ; group e2e-tmux-pane: real transfers in a real tmux pane of 30/34 columns (tmux_pane_width from trz/tsz or from the relay) and in control mode: every pane-relative redraw of the progress line moves pane width - 1 columns left and its text is no wider",
     "trusted": [
         "modelled, not verified: github.com/mattn/go-runewidth (RuneWidth, StringWidth) and the terminal's rendering - premises width_model; "
         "binary64 arithmetic of math.Round(k*a/b) - premises round_model (the exact-rational instance is proved to satisfy them and is what the "
